@@ -129,7 +129,24 @@ func (g *vfE4Gen) line(op vfE4Op) string {
 	panic("unknown op kind " + op.kind)
 }
 
+// "tiny": 13 operations around ONE ephemeral topic/channel with two producers (one over a pipe),
+// deletion, tombstone and time — small enough for sequentially exhaustive depth 5 (371 293 histories).
+func vfE4TinyAlphabet() []vfE4Op {
+	e, d := "e#ephemeral", "d#ephemeral"
+	return []vfE4Op{
+		{kind: "identify", slot: 0}, {kind: "register", slot: 0, a: e, b: d}, {kind: "unregister", slot: 0, a: e, b: d},
+		{kind: "unregister", slot: 0, a: e}, {kind: "disconnect", slot: 0},
+		{kind: "identify", slot: 1}, {kind: "register", slot: 1, a: e, b: d}, {kind: "unregister", slot: 1, a: e, b: d},
+		{kind: "deleteTopic", slot: -1, a: e}, {kind: "createChannel", slot: -1, a: e, b: d},
+		{kind: "tombstone", slot: -1, a: e, b: fmt.Sprintf("%s:%d", vfE4Slots[0].bc, vfE4Slots[0].http)},
+		{kind: "abort-register", slot: 0, a: e, b: d}, {kind: "advance", slot: -1, adv: 2},
+	}
+}
+
 func vfE4Alphabet(kind string) []vfE4Op {
+	if kind == "tiny" {
+		return vfE4TinyAlphabet()
+	}
 	var ops []vfE4Op
 	topics := []string{"t", "e#ephemeral"}
 	chans := []string{"", "c", "d#ephemeral"}
